@@ -46,6 +46,9 @@ def codec(chk, repo, f):
     ]
     # the same overall format, split differently into sent fields and
     # read-only tail
+    # read-only tails of mixed field widths (native alignment would pad)
+    cases += [(("BH",), None), (("H", 7, "HI"), None),
+              (("B", 1, "Iq"), b"xy"), (("H4xI",), None), (("BQ",), 2)]
     cases += [(("H", 7, "HB"), None), (("HH", 7, 8, "B"), None),
               (("HHB",), None), (("HHB", 1, 2, 3), None),
               (("H", 9, "H", 10, "B"), None)]
